@@ -230,9 +230,10 @@ def cli_case(col, rng, tmpdir, watch):
     target = gen_value(rng, rng.randint(1, 3), toml)
     if toml and not isinstance(target, dict):
         target = {'a': target}
-    if fmt == 'yaml' and target in ('', None):
-        target = {'a': target}
+    if target is None or target == '':
+        target = {'a': target}     # (empty target text means {} by design; a bare null / '' document is not a distinct target)
     spec = gen_spec(rng, target, rng.randint(0, 3))
+    empty_spec = rng.random() < 0.12       # no spec text at all: the CLI prints the target itself
     indent = rng.choice([None, None, 0, 1, 4])
     scalar = rng.random() < 0.2
     spec_fmt = 'python'
@@ -241,7 +242,10 @@ def cli_case(col, rng, tmpdir, watch):
     spec_text = repr(spec) if spec_fmt == 'python' else json.dumps(spec)
     if isinstance(spec, str) and spec_fmt == 'python' and rng.random() < 0.6 and not spec.startswith(('-', '"', "'", '[', '{', '(')):
         spec_text = spec      # a bare path string
-    if spec_text.startswith('-') or not spec_text:
+    if empty_spec:
+        from glom import Path as _Path
+        spec, spec_text, spec_fmt = _Path(), '', 'python'
+    if spec_text.startswith('-') or (not spec_text and not empty_spec):
         return
     try:
         target_text = render_target(target, fmt)
@@ -255,6 +259,8 @@ def cli_case(col, rng, tmpdir, watch):
         col.count('skipped_unserialisable')
         return
     channel = rng.choice(['argv', 'argv', 'target-file', 'spec-file', 'both-files', 'stdin-dash', 'stdin-implicit', 'stdin-target-file-dash'])
+    if empty_spec:
+        channel = rng.choice(['argv', 'target-file', 'stdin-dash', 'stdin-target-file-dash'])
     flags = []
     if indent is not None:
         flags += ['--indent', str(indent)]
